@@ -53,6 +53,7 @@ KIND_TEXT = {
     'O-take-front': 'single takes use the front of the list',
     'O-own': 'a spliced element belongs to the named source list',
     'O-append-local': 'local splices',
+    'O-drop': 'no pending event dies with a local list (every FULL slot is dispatched, taken, cleared or handed back)',
     'B-true': '`return true` only after at least one event was consumed',
 }
 
@@ -77,6 +78,11 @@ def run_slot_rules(ctx, rule_p, rule_o, tu, only_kinds=None, rule_b=None, classe
                             and edge_dominates(fn, bid, 'true', fn.pos(node)):
                         ok = True
         if rule is None or kind == 'O-append-local':
+            return
+        if kind in ('P-untracked', 'P-unsupported') and not ok:
+            # the interpretation lost track of a slot / met an operation outside the transfer-only fragment: it cannot decide, which is
+            # not the same as the code being wrong (a correct scope-exit helper object is outside the fragment as well)
+            ctx.broken_later('%s: slot interpretation cannot attribute an operation in %s (%s at %s)' % (rule, fn.pattern(), msg, fn.nloc(node)))
             return
         ctx.ob(rule, fn, KIND_TEXT.get(kind, kind), ok, detail='%s at %s' % (msg, fn.nloc(node)), where=fn.nloc(node), key_detail=kind)
     interp = SlotInterp(tu, report)
@@ -129,7 +135,7 @@ def check(ctx):
     ctx.require_min('C05.D', 2)
     ctx.require_min('C05.B', 6)
     ctx.require_min('C05.M', 4)
-    witness.check_static_unit(ctx, 'C05.V', os.path.join(extract.VERIF, 'witness', 's_select.cpp'), 'QueuedEvent stores decayed copies; index sequence order')
+    witness.check_static_unit(ctx, 'C05.V', os.path.join(extract.VERIF, 'witness', 's_select.cpp'), 'QueuedEvent stores decayed copies; index sequence order', tag='C05')
 
 
 def takes_of(info, f):
